@@ -10,6 +10,7 @@ mod c09;
 mod c10;
 mod c11;
 mod c14;
+mod c15;
 mod c16;
 mod c17;
 mod c18;
@@ -86,6 +87,7 @@ fn main() {
         "c10" => c10::main(&args),
         "c11" => c11::main(&args),
         "c14" => c14::main(&args),
+        "c15" => c15::main(&args),
         "c16" => c16::main(&args),
         "c17" => c17::main(&args),
         "c18" => c18::main(&args),
